@@ -448,10 +448,21 @@ namespace BitSerializer::Convert::Utf
 			}
 			else if constexpr (sizeof(TInCharType) == sizeof(char32_t))
 			{
+				size_t invalidSequencesCount = 0;
 				while (in != end)
 				{
+					TInIt startTailPos = in;
 					uint32_t sym = *in;
 					++in;
+					// Surrogate code points and values above U+10FFFF are not valid UTF-32
+					if (sym > 0x10FFFF || UnicodeTraits::IsInSurrogatesRange(sym))
+					{
+						++invalidSequencesCount;
+						if (!Detail::HandleEncodingError(outStr, errorPolicy, errorMark)) {
+							return UtfEncodingResult(UtfEncodingErrorCode::InvalidSequence, startTailPos, invalidSequencesCount);
+						}
+						continue;
+					}
 					if (sym < 0x10000)
 					{
 						outStr.push_back(static_cast<TOutChar>(sym));
@@ -464,6 +475,7 @@ namespace BitSerializer::Convert::Utf
 						outStr.push_back(static_cast<TOutChar>(UnicodeTraits::LowSurrogatesStart | (sym & 0x3FF)));
 					}
 				}
+				return UtfEncodingResult(UtfEncodingErrorCode::Success, in, invalidSequencesCount);
 			}
 			return UtfEncodingResult(UtfEncodingErrorCode::Success, in, 0);
 		}
